@@ -17,7 +17,7 @@
    value under several keys / in several executions are among them; the model has no object
    identities (the executor never asks for one), such a value is the [Lab] of its contents. *)
 From Coq Require Import ZArith List Bool Permutation.
-From Verif Require Import C16.Model C16.Proofs.
+From Verif Require Import C16.Model C16.Proofs C16.ProofsWorld.
 Import ListNotations.
 
 (* A connection is accepted exactly when both ports exist, the data types are equal and the
@@ -172,6 +172,36 @@ Theorem c16_every_execution_of_an_executor :
 Proof. exact every_execution_of_an_executor_proof. Qed.
 Print Assumptions c16_every_execution_of_an_executor.
 
+(* The caller's own external_inputs mapping objects, used again and again.  For every history of
+   register_module / execute / new-executor calls in which execute() is also called BY REFERENCE with one
+   of the caller's mapping objects ([CExecRef k]: the very same object as in earlier calls, on the same or
+   another executor), the caller rewriting his objects himself in between ([CAssign]):
+   (1) every execution of the history is the execution of a fresh executor with the handlers registered so
+       far on external inputs [ext], where the sequence of (ext, flag) pairs is that of [resolve st0 ops] --
+       each call by reference given the contents the CALLER last put into that object -- and it satisfies
+       everything the property says about one execution ([execution_ok]); nothing delivered or seeded in an
+       earlier execution is among its inputs;
+   (2) every call by reference in the history is such an execution, of exactly those contents, and
+   (3) what the caller finds in the object after any such call is what he put there himself: execute()
+       never writes to the mapping it is given. *)
+Theorem c16_reused_external_inputs_mapping :
+  forall mods attempts hs0 st0 ops,
+    let wires := build mods attempts in
+    (forall hs ext enforce res,
+       In (CEv (EvExec hs ext enforce res)) (run_cops mods wires hs0 st0 ops) ->
+       (exists pre post, resolve st0 ops = pre ++ XExec ext enforce :: post /\ hs = handlers_after mods hs0 pre) /\
+       res = execute mods wires hs enforce ext /\
+       execution_ok mods wires hs ext res) /\
+    (forall pre k enforce post, ops = pre ++ CExecRef k enforce :: post ->
+       let hs := handlers_after mods hs0 (resolve st0 pre) in
+       let ext := st_get (store_after st0 pre) k in
+       In (CEv (EvExec hs ext enforce (execute mods wires hs enforce ext))) (run_cops mods wires hs0 st0 ops) /\
+       In (CEvStore k ext) (run_cops mods wires hs0 st0 ops)) /\
+    (forall k c, In (CEvStore k c) (run_cops mods wires hs0 st0 ops) ->
+       exists pre enforce post, ops = pre ++ CExecRef k enforce :: post /\ c = st_get (store_after st0 pre) k).
+Proof. exact reused_mapping_proof. Qed.
+Print Assumptions c16_reused_external_inputs_mapping.
+
 (* Required capabilities are the union over modules (as a duplicate-free collection). *)
 Theorem c16_capabilities_union :
   forall mods,
@@ -179,6 +209,24 @@ Theorem c16_capabilities_union :
     NoDup (required_caps mods).
 Proof. exact capabilities_union_full. Qed.
 Print Assumptions c16_capabilities_union.
+
+(* ... of THAT diagram's modules, every time it is asked: ModuleSpec objects may be shared between any
+   number of diagrams ([diagrams]: lists of indices into the ModuleSpec objects [mods]), the diagrams'
+   required_capabilities() may be asked in any order and any number of times, and the caller may edit the
+   sets he is handed ([QClear], [QAdd]).  Every answer is the duplicate-free union of the capabilities
+   DECLARED for the modules of the diagram asked -- whatever was asked of whichever diagram before and
+   whatever the caller did to earlier answers --, every query is answered, and no ModuleSpec's
+   capabilities are changed by any of it. *)
+Theorem c16_capabilities_union_every_query :
+  forall mods diagrams held ops,
+    let r := cap_run diagrams (mkCW (map m_caps mods) held) ops in
+    (forall d a, In (d, a) (fst r) ->
+       (forall c, In c a <-> exists md, In md (diagram_mods mods (nth d diagrams [])) /\ In c (m_caps md)) /\
+       NoDup a) /\
+    cw_caps (snd r) = map m_caps mods /\
+    length (fst r) = length (filter (fun o => match o with QCaps _ => true | _ => false end) ops).
+Proof. exact capabilities_every_query_proof. Qed.
+Print Assumptions c16_capabilities_union_every_query.
 
 (* Not a conjunct of the property text; it accounts for model branches the correspondence can
    never reach: on a diagram assembled through connect the executor's per-wire runtime
